@@ -469,6 +469,19 @@ class RoundGen:
             else:
                 self.emit({"k": "description", "indent": indent + 2,
                            "text": rng.choice(["width of the box", "a flag", "see manual"])})
+        if getattr(self, "bad_condition", None) and not shape and not declare \
+                and st.get("value") is not None:
+            kind, self.bad_condition = self.bad_condition, None
+            if kind == "dimension" and not (typ == "float" and unit):
+                kind = "reference"
+            if kind == "reference":
+                expr = ["cmpref", rng.choice(["<", ">", "=="]), "nosuch"]
+            else:
+                ou = "s" if self.g.units.dims(unit) != self.g.units.dims("s") else "m"
+                expr = ["cmp", rng.choice(["<", ">="]), 5.0, ou]
+            self.fault_label = "condition_unevaluable"
+            self.emit({"k": "condition", "indent": indent + 2, "expr": expr, "unevaluable": kind})
+            return
         # properties directly after the new node
         if cfg["constraints"] and not shape and (declare or st["value"] is not None):
             self.s_properties(path, indent + 2)
@@ -901,6 +914,21 @@ class RoundGen:
                        "slice": sl})
             self.chain_valid = False
             return
+        if fault == "other_dimension":
+            # the host states no unit and adopts the referenced node's: of another dimension
+            # than its own definition, so the usual conversion has to refuse it
+            if typ != "float" or rnode is None or rnode["unit"] is None or \
+                    isinstance(rnode["value"], list):
+                return
+            bad = [p for p in hosts if self.g.nodes[p]["unit"] is not None and
+                   self.g.units.dims(self.g.nodes[p]["unit"]) != dom.units.dims(rnode["unit"])]
+            if not bad:
+                return
+            self.fault_label = "inject_other_dimension"
+            self.chain_valid = False
+            self.emit({"k": "inject", "indent": 0, "name": rng.choice(bad), "ref": ref,
+                       "unit": None, "slice": None})
+            return
         if as_mod:
             path = rng.choice(hosts)
             host = self.g.nodes[path]
@@ -1176,7 +1204,8 @@ class DipStoreMachine(Machine):
             cfg["p_options"] = rng.choice([0.3, 0.6])
             cfg["p_format"] = rng.choice([0.3, 0.7])
             cfg["p_array"] = rng.choice([0.0, 0.2, 0.4])
-            cfg["faults"] = [f for f in ("bad_value", "bad_dims", "declared_unset")
+            cfg["faults"] = [f for f in ("bad_value", "bad_dims", "declared_unset",
+                                         "condition_unevaluable")
                              if rng.random() < 0.8]
             # constraints travel with imported copies: import, then modify the copy
             cfg["weights"]["import"] = rng.choice([0, 1, 2])
@@ -1198,12 +1227,38 @@ class DipStoreMachine(Machine):
             cfg["callbacks"] = rng.random() < 0.4
             cfg["weights"]["fn"] = 1 if cfg["callbacks"] else 0
             cfg["faults"] = [f for f in ("select_none", "select_several", "missing_source",
-                                         "import_none", "missing_file", "self_reference")
+                                         "import_none", "missing_file", "self_reference",
+                                         "inject_other_dimension")
                              if rng.random() < 0.7]
             if cfg["callbacks"] and rng.random() < 0.7:
                 cfg["faults"].append("callback_raises")
             if cfg["constraints"] and rng.random() < 0.7:
                 cfg["faults"].append("bad_value")     # e.g. on an imported copy
+        if prop == "C09":
+            # every way a parse can end early, always with custom units in play: only the
+            # process-wide tables are judged (see m_c09)
+            cfg["custom_units"] = True
+            cfg["weights"]["unit"] = rng.choice([2, 3])
+            cfg["p_other_unit"] = 0.8
+            cfg["refs"] = True
+            cfg["files"] = rng.random() < 0.5
+            cfg["constraints"] = rng.random() < 0.7
+            if cfg["constraints"]:
+                cfg["p_condition"], cfg["p_options"], cfg["p_format"] = 0.5, 0.3, 0.3
+            cfg["weights"].update({"inject": 2, "import": 1, "source": 2 if cfg["files"] else 0,
+                                   "cmp": rng.choice([0, 1, 2])})
+            cfg["io_faults"] = cfg["files"] and rng.random() < 0.5
+            cfg["callbacks"] = rng.random() < 0.4
+            cfg["weights"]["fn"] = 1 if cfg["callbacks"] else 0
+            cfg["p_fault"] = rng.choice([0.35, 0.5, 0.7])
+            cfg["faults"] = [f for f in ("other_type", "other_dimension", "constant",
+                                         "declared_unset", "bad_value", "bad_dims",
+                                         "select_none", "select_several", "missing_source",
+                                         "import_none", "missing_file", "self_reference",
+                                         "condition_unevaluable", "inject_other_dimension")
+                             if rng.random() < 0.7]
+            if cfg["callbacks"]:
+                cfg["faults"].append("callback_raises")
         return cfg
 
     # ------------------------------------------------------------------ lifecycle
@@ -1340,6 +1395,12 @@ class DipStoreMachine(Machine):
                 out.append({"via": "string", "stmts": c})
         op = {"op": "round", "base": base, "chunks": out, "fault": gen.fault_label or fault,
               "io_fault": None}
+        if cfg["p_fault"] and rng.random() < 0.06:
+            # the caller's first text ends in a line that is no DIP statement at all; the
+            # parser refuses it, the caller catches that and hands the real text to the same
+            # parser object
+            op["prelude"] = rng.choice(["  !condition", 'x str = """\nabc', "!options", "a float = ",
+                                        "$unit", "a float = 3 m m m", "@case"])
         if cfg["io_faults"] and rng.random() < 0.3:
             read = [c["path"] for c in out if c["via"] == "file"] + \
                 [st["path"] for st in stmts if st["k"] == "source"]
@@ -1410,12 +1471,18 @@ class DipStoreMachine(Machine):
             if node["unsigned"]:
                 st["value"] = DM.map_leaves(st["value"], abs)
             gen.emit(st)
+        elif fault == "inject_other_dimension":
+            gen.s_injection("other_dimension")
         elif fault in ("select_none", "select_several", "missing_source", "self_reference"):
             gen.s_injection(fault)
         elif fault == "import_none":
             gen.s_import("select_none")
         elif fault == "callback_raises":
             gen.s_function("callback_raises")
+        elif fault == "condition_unevaluable":
+            gen.bad_condition = rng.choice(["reference", "dimension"])
+            gen.s_definition()
+            gen.bad_condition = None
         elif fault == "missing_file":
             gen.fault_label = "missing_file"
             gen.emit({"k": "source", "indent": 0, "name": "ghost",
@@ -1533,6 +1600,14 @@ class DipStoreMachine(Machine):
             for st in all_stmts:
                 if st["k"] == "fn":
                     p.add_function(st["fname"], make_callback(st, self.stats))
+            if op.get("prelude"):
+                refused = False
+                p.add_string(op["prelude"])
+                try:
+                    p.parse()
+                except Exception:
+                    refused = True
+                self.stats.fault("malformed_text_then_retry_on_the_same_parser", refused)
             for c, stmts in chunks:
                 if c["via"] == "file":
                     p.add_file(c["path"])
@@ -1587,8 +1662,14 @@ class DipStoreMachine(Machine):
                 raise v
         tbl = tables.diff(self.base.snap, tables.snapshot())
         if tbl:
-            self.stats.probe("foreign_C09_tables_changed")
-            self.base.restore()
+            v = self._violation("C09", "tables_changed_by_parse",
+                                dict(detail_base, diff=tbl, parse=got), "leak/dipstore/" + got)
+            if v:
+                self.base.restore()
+                raise v
+            # for the other properties the leak itself is C09's business; what it does to the
+            # following rounds (valid text refused, unknown units accepted) is theirs, so the
+            # tables stay as the library left them until the end of the run
         # ---- oracle 2: must abort
         if expected == "abort" and got == "commit":
             if eprop == "C16" and self.cfg["prop"] == "C17" and getattr(self, "_abort_imported", False):
@@ -1744,6 +1825,8 @@ class DipStoreMachine(Machine):
                                         "stmts": [s for c in ch for s in c["stmts"]]}])
             if op.get("io_fault"):
                 yield dict(op, io_fault=None)
+            if op.get("prelude"):
+                yield dict(op, prelude=None)
             if op.get("base", -1) >= 0:
                 yield dict(op, base=-1)
             for ci, c in enumerate(ch):
